@@ -211,4 +211,17 @@ theorem parseLines_build (sep : Bytes) (hsep : SepOk sep) (hs : List (Bytes × B
       parseLine_hdrLine sep hsep p hp, this]
     simp
 
+theorem startsWith_append (p r : Bytes) : startsWith (p ++ r) p = true := by
+  induction p with
+  | nil => cases r <;> rfl
+  | cons a p ih => simp [startsWith, ih]
+
+/-- well-formed header list, as a proposition (the run-time judge uses the Bool `wfHeaders`) -/
+theorem wfHeaders_spec {metaKeys : List Bytes} {hs : List (Bytes × Bytes)} (h : wfHeaders metaKeys hs = true) :
+    (∀ p ∈ hs, WFPair p) ∧ (∀ p ∈ hs, reserved metaKeys (lower p.1) = false)
+    ∧ distinctCI (hs.map (·.1)) = true := by
+  simp only [wfHeaders, Bool.and_eq_true, List.all_eq_true, Bool.not_eq_true', decide_eq_true_eq] at h
+  exact ⟨fun p hp => ⟨(h.1 p hp).1.1.1, (h.1 p hp).1.1.2, (h.1 p hp).2⟩,
+         fun p hp => (h.1 p hp).1.2, h.2⟩
+
 end Upnp.C01
